@@ -20,8 +20,9 @@ Inductive instr :=
 | IAct (a : action)
 | IPost (e : event)         (* status sensor records; await self.handle_event(e): the task may be suspended here *)
 | IReset                    (* call async_reset *)
-| IRSpa                     (* if self._spa is not None: await self._spa.disconnect() ; self._spa = None *)
+| IRSpa                     (* if / while self._spa is not None: spa = self._spa ; await spa.disconnect() ; [if self._spa is spa:] self._spa = None *)
 | IRDisc                    (* spa.disconnect() after its event: _disconnected, cancel the SPA tasks, close; then self._spa = None *)
+| IRDiscStale               (* the same, by a reset whose spa object has meanwhile been replaced: it closes the OLD object and clears the NEW reference *)
 | IRFin                     (* self._facade = None ; [self._spa_descriptors = None] ; state = IDLE *)
 | ISetId                    (* async_set_spa_info stores address / identifier / name *)
 | ISetDesc                  (* self._spa_descriptors = locator.spas *)
@@ -43,7 +44,7 @@ Definition instr_eqb (a b : instr) : bool :=
   match a, b with
   | IEnter x, IEnter y | IRule x, IRule y | IPost x, IPost y => event_eqb x y
   | IAct x, IAct y => action_eqb x y
-  | IReset, IReset | IRSpa, IRSpa | IRDisc, IRDisc | IRFin, IRFin | ISetId, ISetId | ISetDesc, ISetDesc | IAssertNoFac, IAssertNoFac
+  | IReset, IReset | IRSpa, IRSpa | IRDisc, IRDisc | IRDiscStale, IRDiscStale | IRFin, IRFin | ISetId, ISetId | ISetDesc, ISetDesc | IAssertNoFac, IAssertNoFac
   | ISetSpa, ISetSpa | IFacadeIfReady, IFacadeIfReady | ICondNotFound, ICondNotFound | IExc, IExc => true
   | IAfterLoc a1 b1, IAfterLoc a2 b2 => Bool.eqb a1 a2 && Bool.eqb b1 b2
   | IWait p, IWait q => pc_eqb p q
@@ -63,14 +64,17 @@ Record ist := mkI {
   tp : ptask; te : task; tu : task;
   ecancel : bool;         (* the connection's task cancelled itself (its own reset ran cancel_key_tasks): it dies at its next real suspension *)
   v_reset_dirty : bool;   (* sticky: an async_reset returned with a spa or descriptors present *)
-  v_died : bool }.        (* sticky: a task died on an AssertionError / AttributeError inside the manager *)
+  v_died : bool;          (* sticky: a task died on an AssertionError / AttributeError inside the manager *)
+  cur_open : bool;        (* the datagram endpoint of the spa object the manager references is open *)
+  v_leak : bool }.        (* sticky: a spa object with an open endpoint was dropped (self._spa = None) without being disconnected *)
 
 Definition ist_eqb (a b : ist) : bool :=
   mst_eqb (gs a) (gs b) && ptask_eqb (tp a) (tp b) && task_eqb (te a) (te b) && task_eqb (tu a) (tu b) &&
-  Bool.eqb (ecancel a) (ecancel b) && Bool.eqb (v_reset_dirty a) (v_reset_dirty b) && Bool.eqb (v_died a) (v_died b).
+  Bool.eqb (ecancel a) (ecancel b) && Bool.eqb (v_reset_dirty a) (v_reset_dirty b) && Bool.eqb (v_died a) (v_died b) &&
+  Bool.eqb (cur_open a) (cur_open b) && Bool.eqb (v_leak a) (v_leak b).
 
 (* ---------- one burst ---------- *)
-Record bst := mkB { b_g : mst; b_kill_e : bool; b_dirty : bool; b_died : bool }.
+Record bst := mkB { b_g : mst; b_kill_e : bool; b_dirty : bool; b_died : bool; b_open : bool; b_leak : bool; b_new_spa : bool; b_over : bool }.
 Inductive bend := BYield (k : list instr) | BWait (p : pc) | BDone | BFuel.
 
 Definition exc_code : list instr := if pump_survives then [IReset; IWait PIdle] else [IWait PDead].
@@ -84,7 +88,7 @@ Fixpoint burst (fuel : nat) (who : slot) (b : bst) (k : list instr) : bst * bend
       | [] => (b, BDone, [])
       | i :: r =>
           let s := b_g b in
-          let go s' k' := burst f who (mkB s' (b_kill_e b) (b_dirty b) (b_died b)) k' in
+          let go s' k' := burst f who (mkB s' (b_kill_e b) (b_dirty b) (b_died b) (b_open b) (b_leak b) (b_new_spa b) (b_over b)) k' in
           match i with
           | IEnter e =>
               match ss s with
@@ -100,21 +104,28 @@ Fixpoint burst (fuel : nat) (who : slot) (b : bst) (k : list instr) : bst * bend
               | AReset => go s (IReset :: r)
               | ASensor => go s r
               | AWatercare => if fac s && spa s then go s r     (* assert facade / spa ; await spa.async_get_watercare() *)
-                              else (mkB s (b_kill_e b) (b_dirty b) true, BDone, [])
+                              else (mkB s (b_kill_e b) (b_dirty b) true (b_open b) (b_leak b) (b_new_spa b) (b_over b), BDone, [])
               end
           | IPost e =>
               let s2 := match ss s with Some _ => upd_ss s (Some (st s)) | None => s end in
               let s3 := monitor s2 e in
-              (mkB s3 (b_kill_e b) (b_dirty b) (b_died b), BYield r, [(e, st s3, fac s3, ss s3)])
+              (mkB s3 (b_kill_e b) (b_dirty b) (b_died b) (b_open b) (b_leak b) (b_new_spa b) (b_over b), BYield r, [(e, st s3, fac s3, ss s3)])
           | IReset =>
               let s1 := upd_objs s (fac s) (spa s) false in
               let s2 := if reset_clears_facade_last then s1 else upd_objs s1 false (spa s1) (desc s1) in
               go s2 (IRSpa :: r)
-          | IRSpa => if spa s then go s (IEnter RUNNING_SPA_DISCONNECTED :: IRDisc :: IRFin :: r) else go s (IRFin :: r)
-          | IRDisc => burst f who (mkB (upd_objs s (fac s) false (desc s)) true (b_dirty b) (b_died b)) r
+          | IRSpa => if spa s then go s (IEnter RUNNING_SPA_DISCONNECTED :: IRDisc :: (if reset_loops_until_no_spa then IRSpa else IRFin) :: r) else go s (IRFin :: r)
+          | IRDisc => burst f who (mkB (upd_objs s (fac s) false (desc s)) true (b_dirty b) (b_died b) false (b_leak b) (b_new_spa b) (b_over b)) r
+          | IRDiscStale =>
+              (* the old object is closed and its - all - SPA tasks are cancelled; the reference that is cleared is the new object's *)
+              if reset_loops_until_no_spa then
+                (* 'if self._spa is spa' fails: the new reference stays (the loop disconnects that object next) *)
+                burst f who (mkB s true (b_dirty b) (b_died b) (b_open b) (b_leak b) (b_new_spa b) (b_over b)) r
+              else
+              burst f who (mkB (upd_objs s (fac s) false (desc s)) true (b_dirty b) (b_died b) false (b_leak b || (spa s && b_open b)) (b_new_spa b) (b_over b)) r
           | IRFin =>
               let s1 := upd_st (upd_objs s false (spa s) (if reset_clears_descriptors_last then false else desc s)) IDLE in
-              burst f who (mkB s1 (b_kill_e b) (b_dirty b || spa s1 || desc s1) (b_died b)) r
+              burst f who (mkB s1 (b_kill_e b) (b_dirty b || spa s1 || desc s1) (b_died b) (b_open b) (b_leak b) (b_new_spa b) (b_over b)) r
           | ISetId => go (upd_id s true) r
           | ISetDesc => go (upd_objs s (fac s) (spa s) true) r
           | IAfterLoc fc found =>
@@ -124,7 +135,7 @@ Fixpoint burst (fuel : nat) (who : slot) (b : bst) (k : list instr) : bst * bend
                 else go s (IEnter SPA_NOT_FOUND :: IWait PIdle :: nil)
               else go s (IWait PIdle :: nil)
           | IAssertNoFac => if fac s then go s (IExc :: nil) else go s r
-          | ISetSpa => go (upd_objs s (fac s) true (desc s)) r
+          | ISetSpa => burst f who (mkB (upd_objs s (fac s) true (desc s)) (b_kill_e b) (b_dirty b) (b_died b) true (b_leak b) true (b_over b || (spa s && b_open b))) r
           | IFacadeIfReady => if sstate_eqb (st s) SPA_READY then go (upd_objs s true (spa s) (desc s)) r else go s r
           | ICondNotFound => if sstate_eqb (st s) ERROR_SPA_NOT_FOUND then go s (IReset :: r) else go s r
           | IExc => go s exc_code
@@ -199,12 +210,20 @@ Definition resume (s : ist) (sl : slot) : option (list instr) :=
 Definition norm (g : mst) : mst := upd_pc g PIdle.
 
 (* run a burst of task [who] with code k and put the result back *)
+(* a new spa object has replaced the one a suspended reset is disconnecting: that reset now works on a stale object *)
+Definition stale_code (k : list instr) : list instr := map (fun i => match i with IRDisc => IRDiscStale | _ => i end) k.
+Definition has_disc (k : list instr) : bool := existsb (fun i => match i with IRDisc => true | _ => false end) k.
+Definition task_has_disc (t : task) : bool := match t with TSusp k => has_disc k | TNone => false end.
+Definition ptask_has_disc (t : ptask) : bool := match t with PSusp k => has_disc k | _ => false end.
+Definition stale_task (t : task) : task := match t with TSusp k => TSusp (stale_code k) | TNone => TNone end.
+Definition stale_ptask (t : ptask) : ptask := match t with PSusp k => PSusp (stale_code k) | _ => t end.
+
 Definition exec (s : ist) (who : slot) (k : list instr) : ist * list delivery :=
   (* a connection task that cancelled itself is dead as soon as anything else runs *)
   let dead_e := ecancel s && negb (slot_eqb who SE) in
   let te0 := if dead_e then TNone else te s in
   let ec0 := if dead_e then false else ecancel s in
-  let '(b, fin, d) := burst BFUEL who (mkB (gs s) false false false) k in
+  let '(b, fin, d) := burst BFUEL who (mkB (gs s) false false false (cur_open s) false false false) k in
   let g := match fin with BFuel => fuel_out (b_g b) | _ => b_g b end in
   let asT := match fin with BYield r => TSusp r | _ => TNone end in
   let tp' := match who with
@@ -214,7 +233,12 @@ Definition exec (s : ist) (who : slot) (k : list instr) : ist * list delivery :=
   let te1 := match who with SE => asT | _ => if b_kill_e b then TNone else te0 end in
   let ec1 := match who with SE => match asT with TNone => false | _ => ec0 || b_kill_e b end | _ => if b_kill_e b then false else ec0 end in
   let tu' := match who with SU => asT | _ => tu s end in
-  (mkI (norm g) tp' te1 tu' ec1 (v_reset_dirty s || b_dirty b) (v_died s || b_died b), d).
+  let fix_p t := if b_new_spa b then match who with SP => t | _ => stale_ptask t end else t in
+  let fix_e t := if b_new_spa b then match who with SE => t | _ => stale_task t end else t in
+  let fix_u t := if b_new_spa b then match who with SU => t | _ => stale_task t end else t in
+  (mkI (norm g) (fix_p tp') (fix_e te1) (fix_u tu') ec1 (v_reset_dirty s || b_dirty b) (v_died s || b_died b) (b_open b)
+       (* a referenced, open spa object was overwritten by a new one while no suspended reset is about to close it *)
+       (v_leak s || b_leak b || (b_over b && negb (ptask_has_disc tp' || task_has_disc te1 || task_has_disc tu'))), d).
 
 Definition istep (s : ist) (l : ilabel) : option (ist * list delivery) :=
   match l with
@@ -222,12 +246,12 @@ Definition istep (s : ist) (l : ilabel) : option (ist * list delivery) :=
   | LResume sl => match resume s sl with Some k => Some (exec s sl k) | None => None end
   end.
 
-Definition iinit (configured : bool) : ist := mkI (norm (init configured)) (PBlocked PIdle) TNone TNone false false false.
+Definition iinit (configured : bool) : ist := mkI (norm (init configured)) (PBlocked PIdle) TNone TNone false false false false false.
 (* __aenter__ : SPA_MAN_ENTER is delivered before the pump exists; the caller of __aenter__ is the user's task *)
 Definition ienter_label : list instr := [IEnter SPA_MAN_ENTER].
 
 Definition all_ilabels : list ilabel := map LBig all_labels ++ [LResume SP; LResume SE; LResume SU].
-Definition ientered (configured : bool) : ist := mkI (norm (entered configured)) (PBlocked PIdle) TNone TNone false false false.
+Definition ientered (configured : bool) : ist := mkI (norm (entered configured)) (PBlocked PIdle) TNone TNone false false false false false.
 
 (* ---------- a hash of the state (speed only: Lib/HashReach proves nothing about it) ---------- *)
 Local Open Scope N_scope.
@@ -241,7 +265,7 @@ Definition instr_code (i : instr) : N :=
   match i with
   | IEnter e => 1 + 32 * ev_idx e | IRule e => 2 + 32 * ev_idx e | IPost e => 3 + 32 * ev_idx e
   | IAct a => 4 + 32 * match a with ASet x => st_idx x | ANest e => 12 + ev_idx e | AReset => 50 | ASensor => 51 | AWatercare => 52 end
-  | IReset => 5 | IRSpa => 6 | IRDisc => 7 | IRFin => 8 | ISetId => 9 | ISetDesc => 10 | IAfterLoc a b => 11 + 32 * (bN a + 2 * bN b)
+  | IReset => 5 | IRSpa => 6 | IRDisc => 7 | IRDiscStale => 18 | IRFin => 8 | ISetId => 9 | ISetDesc => 10 | IAfterLoc a b => 11 + 32 * (bN a + 2 * bN b)
   | IAssertNoFac => 12 | ISetSpa => 13 | IFacadeIfReady => 14 | ICondNotFound => 15 | IExc => 16 | IWait p => 17 + 32 * pc_idx p
   end.
 Definition code_hash (k : list instr) : N := fold_left (fun h i => (h * 131 + instr_code i) mod 1000003) k 7.
